@@ -1363,8 +1363,8 @@ var writeKeywords = map[string]bool{
 }
 
 // leadingKeyword returns the lower-cased first keyword of sql as MySQL reads it: after blanks,
-// comments (/* */, -- and #), opening parentheses and the opening of an executable comment (/*!50700 ...),
-// ending at the first byte that is not a letter.
+// comments (/* */, -- and #), opening parentheses and the opening (/*!50700 ...) or, when it was empty, the
+// closing of an executable comment, ending at the first byte that is not a letter.
 func leadingKeyword(sql string) string {
 	i := 0
 	for i < len(sql) {
@@ -1388,6 +1388,9 @@ func leadingKeyword(sql string) string {
 				return ""
 			}
 			i += end + 4
+		case strings.HasPrefix(sql[i:], "*/"):
+			// the end of an executable comment that held nothing but blanks and comments: the statement follows
+			i += 2
 		default:
 			j := i
 			for j < len(sql) && ((sql[j] >= 'a' && sql[j] <= 'z') || (sql[j] >= 'A' && sql[j] <= 'Z')) {
